@@ -45,25 +45,28 @@ RULE = ('(1) exhaustive mini-space: every Excel-sorted vector of length <= 4 (an
         'index incl. 0, negative, too large, fractional. One case = one pycel call compared with the model; '
         'non-trivial = the model has a firm expectation (not a totality-only input); distinct = by (function, '
         'arguments).')
-BUDGET = {'quick': 15, 'thorough': 240}
-# mini:* and directed:* are sizes of the deterministic enumerations (exact); the others are set about 5x below
-# what a quick run reaches with 16 shards
+BUDGET = {'quick': 12, 'thorough': 240}
+# mini:*, directed:*, match:mt=* and fn:match are the sizes of the deterministic enumerations (reached with
+# any budget); the others are 5-10x below what a quick run reaches with 16 shards on an unloaded machine
+# (3x below a run on a machine with load average 40)
 FLOORS = {
     'quick': {'mini:match-approx': 12824, 'mini:match-exact': 21756, 'mini:index-sweep': 3690,
-              'directed:wildcard': 1680, 'fn:match': 69000, 'fn:vlookup': 30000, 'fn:hlookup': 30000,
-              'fn:lookup': 1000, 'fn:index': 3000, 'via-workbook': 1500, 'firm': 150000,
-              'law:vlookup=index(match)': 15000, 'law:hlookup=index(match)': 15000,
-              'law:vlookup=hlookup(transpose)': 30000, 'law:lookup=index(match)': 800,
-              'accept:duplicates': 5000, 'expect:#N/A': 30000, 'expect:error-propagates': 800,
-              'match:mt=1': 6400, 'match:mt=-1': 6400, 'match:mt=0': 22000, 'data:blank-ends': 4000,
-              'vkind:text': 40000, 'vkind:bool': 15000, 'vkind:num': 25000, 'wild:pattern': 1500,
-              'idx:too-large': 8000, 'idx:zero': 4000, 'idx:negative': 4000, 'idx:in-range': 15000},
+              'directed:wildcard': 1680, 'fn:match': 70000, 'match:mt=1': 6412, 'match:mt=-1': 6412,
+              'match:mt=0': 22596, 'scenarios': 500,
+              'fn:vlookup': 20000, 'fn:hlookup': 20000, 'fn:lookup': 600, 'fn:index': 2500,
+              'via-workbook': 1000, 'firm': 100000,
+              'law:vlookup=index(match)': 10000, 'law:hlookup=index(match)': 10000,
+              'law:vlookup=hlookup(transpose)': 20000, 'law:lookup=index(match)': 500,
+              'accept:duplicates': 5000, 'expect:#N/A': 30000, 'expect:error-propagates': 500,
+              'data:blank-ends': 6972, 'vkind:text': 30000, 'vkind:bool': 10000, 'vkind:num': 20000,
+              'wild:pattern': 1200, 'idx:too-large': 5000, 'idx:zero': 2500, 'idx:negative': 2500,
+              'idx:in-range': 10000},
     'thorough': {'mini:match-approx': 12824, 'mini:match-exact': 21756, 'mini:index-sweep': 3690,
                  'directed:wildcard': 1680, 'fn:match': 400000, 'fn:vlookup': 300000, 'fn:hlookup': 300000,
-                 'fn:lookup': 10000, 'fn:index': 30000, 'via-workbook': 15000, 'firm': 1500000,
+                 'fn:lookup': 10000, 'fn:index': 30000, 'via-workbook': 15000, 'firm': 1000000,
                  'law:vlookup=index(match)': 150000, 'law:hlookup=index(match)': 150000,
                  'law:vlookup=hlookup(transpose)': 300000, 'law:lookup=index(match)': 8000,
-                 'accept:duplicates': 50000, 'expect:#N/A': 300000, 'match:mt=1': 30000, 'match:mt=-1': 20000,
+                 'accept:duplicates': 50000, 'expect:#N/A': 300000, 'match:mt=1': 30000, 'match:mt=-1': 15000,
                  'match:mt=0': 100000, 'data:blank-ends': 40000, 'wild:pattern': 15000,
                  'idx:too-large': 80000, 'idx:zero': 40000, 'idx:negative': 40000},
 }
